@@ -53,6 +53,8 @@ func main() {
 
 type pairInfo struct {
 	a, b      string
+	readEntry string
+	writer    string
 	count     int
 	entries   map[string]int
 	workloads map[string]int
@@ -109,7 +111,7 @@ func parent(r *vf.Run) {
 
 	var mu sync.Mutex
 	pairs := map[string]*pairInfo{}
-	harnessOnly := 0
+	harnessOnly, hookReports := 0, 0
 	var harnessSample string
 	totalReports := 0
 	ops := map[string]int64{}
@@ -184,12 +186,16 @@ func parent(r *vf.Run) {
 				}
 				continue
 			}
+			if rep.Hook {
+				hookReports++
+				continue
+			}
 			a, b := rep.InnerPair()
 			ea, eb := rep.EntryPair()
-			k := a + " | " + b
+			k := a + " | " + b + " | " + rep.ReadEntry() + " | " + rep.Writer()
 			pi := pairs[k]
 			if pi == nil {
-				pi = &pairInfo{a: a, b: b, entries: map[string]int{}, workloads: map[string]int{}, first: rep, job: j}
+				pi = &pairInfo{a: a, b: b, readEntry: rep.ReadEntry(), writer: rep.Writer(), entries: map[string]int{}, workloads: map[string]int{}, first: rep, job: j}
 				pairs[k] = pi
 			}
 			pi.count++
@@ -207,6 +213,7 @@ func parent(r *vf.Run) {
 		r.Set("operations_that_panicked", readerPanics)
 	}
 	r.Set("harness_only_reports", harnessOnly)
+	r.Set("reports_with_a_verification_hook_on_one_side_(discarded)", hookReports)
 	if harnessOnly > 0 {
 		r.Inconclusive(fmt.Sprintf("%d race report(s) lie entirely in the harness: the harness itself must be race free\n%s", harnessOnly, harnessSample))
 	}
@@ -230,10 +237,10 @@ func parent(r *vf.Run) {
 			ws = append(ws, w)
 		}
 		sort.Strings(ws)
-		listed = append(listed, map[string]any{"a": pi.a, "b": pi.b, "reports": pi.count, "entry_point_pairs": es, "workloads": ws,
+		listed = append(listed, map[string]any{"a": pi.a, "b": pi.b, "read_entry": pi.readEntry, "writer": pi.writer, "reports": pi.count, "entry_point_pairs": es, "workloads": ws,
 			"first": []string{pi.first.A.Header, first(pi.first.A.Frames), first(pi.first.A.Lines), pi.first.B.Header, first(pi.first.B.Frames), first(pi.first.B.Lines)}})
 		for i := 0; i < pi.count; i++ {
-			r.Violate(vf.Violation{Clause: "data-race", Features: vf.F("a", pi.a, "b", pi.b), Case: pi.job,
+			r.Violate(vf.Violation{Clause: "data-race", Features: vf.F("a", pi.a, "b", pi.b, "read_entry", pi.readEntry, "writer", pi.writer), Case: pi.job,
 				Detail: fmt.Sprintf("race detector: %s / %s\nentry points: %s\nworkloads: %s\n%s", pi.a, pi.b, strings.Join(es, "; "), strings.Join(ws, ", "), pi.first.Text)})
 		}
 	}
